@@ -263,7 +263,7 @@ func (g *G) genC08(p *Plan) {
 			ops = append(ops, op)
 		}
 		if kind == "chunked" {
-			for _, lie := range []string{"badhex", "nosig", "trunc", "trunc1", "declen+", "declen-", "nofinal", "sig63", "sig65", "sig200"} {
+			for _, lie := range []string{"badhex", "nosig", "trunc", "trunc1", "declen+", "declen-", "nofinal", "sig63", "sig65", "sig200", "badcrlf"} {
 				op := mk()
 				op.Body = g.body(1 + size)
 				op.ChLie = lie
@@ -436,7 +436,7 @@ func (g *G) genC12(p *Plan) {
 		}
 		ops = append(ops, Op{K: "put", B: b, Key: key, Body: g.body(size), Chunks: chunks, Splits: []int{1<<25 - g.n(1, 3000000), 1<<25 - g.n(1, 3000), 1<<25 + g.n(1, 5000)}})
 	}
-	for _, lie := range []string{"badhex", "nosig", "trunc", "trunc1", "declen+", "declen-", "nofinal", "sig8", "sig63", "sig65", "sig200", "sig0"} {
+	for _, lie := range []string{"badhex", "nosig", "trunc", "trunc1", "declen+", "declen-", "nofinal", "sig8", "sig63", "sig65", "sig200", "sig0", "badcrlf", "lfonly"} {
 		if g.chance(0.5) {
 			continue
 		}
